@@ -128,18 +128,15 @@ Section WithFloats.
 Variable F : float_ops.
 
 (* concretizeLiteralTo(abstract, concrete) (5545): goes through float64(int64(a)) even for
-   integer targets.  For |a| <= 2^53 the int64 -> float64 step is exact and the result is
-   int32(float64)/uint32(float64) of the same value (platform-dependent when out of range,
-   see GoArith.f2i32_amd64); outside it is the float hook's business. *)
-Definition P53 : Z := 9007199254740992.
+   integer targets: float64(int64) rounds to 53 bits (GoArith.round_to_f64, an integer) and
+   int32(float64)/uint32(float64) of an out-of-range value is platform-dependent
+   (GoArith.f2i32_amd64 / f2u32_amd64). *)
 Definition concretize_literal_to (abstract concrete : lit) : lit :=
   match abstract with
   | LAI v =>
     match concrete with
-    | LI32 _ => if (- P53 <=? v) && (v <=? P53) then LI32 (f2i32_amd64 v)
-                else match F.(f_conc) abstract TI32 with Some l => l | None => abstract end
-    | LU32 _ => if (- P53 <=? v) && (v <=? P53) then LU32 (f2u32_amd64 v)
-                else match F.(f_conc) abstract TU32 with Some l => l | None => abstract end
+    | LI32 _ => LI32 (f2i32_amd64 (round_to_f64 v))
+    | LU32 _ => LU32 (f2u32_amd64 (round_to_f64 v))
     | LF32 _ => match F.(f_conc) abstract TF32 with Some l => l | None => abstract end
     | _ => abstract          (* LiteralF16 / Bool / abstract: default branch returns the abstract literal *)
     end
